@@ -375,12 +375,36 @@ def _attempt(f):
         return ("err", type(e))
 
 
+class _OpTimeout(Exception):
+    pass
+
+
+def _on_alarm(signum, frame):
+    raise _OpTimeout("the operation did not return within %d s" % OP_TIMEOUT)
+
+
+OP_TIMEOUT = 2
+
+
 def run_impl(case):
-    import copy as _copy
-    import warnings
+    import signal
 
     import mesa
     from mesa.agent import AgentSet
+
+    # an implementation that loops for ever (e.g. clear() when discard stops discarding) must end as a
+    # reported failure, not as a hung check: every operation runs under an alarm
+    signal.signal(signal.SIGALRM, _on_alarm)
+    try:
+        # repeating: an exception raised by the handler inside a finaliser / weakref callback is swallowed by
+        # the interpreter, so keep firing until it lands in ordinary code
+        return _run_impl(case, mesa, AgentSet,
+                         lambda on=True: signal.setitimer(signal.ITIMER_REAL, OP_TIMEOUT if on else 0, 0.05 if on else 0))
+    finally:
+        signal.setitimer(signal.ITIMER_REAL, 0)
+
+
+def _run_impl(case, mesa, AgentSet, arm):
 
     cl = _classes()
     model = mesa.Model(seed=case.get("seed", 0))
@@ -450,7 +474,13 @@ def run_impl(case):
                      f"{case['ops'][i]}: attributes of agent {a.unique_id} are {cur}, expected {sattrs[a.unique_id]}")
                 sattrs[a.unique_id] = cur
 
+    hung = False
     for i, op in enumerate(case["ops"]):
+        if hung:     # the implementation did not come back from an earlier operation: stop using these objects
+            ops_for_model.append(op if op[0] != "shuffle" else ["shuffle", op[1], [], op[2], op[3]])
+            obs.append([-1, 98])
+            continue
+        arm()
         kind = op[0]
         s = op[1]
         mop = op
@@ -789,6 +819,7 @@ def run_impl(case):
             else:
                 raise ValueError(kind)
         except Exception as e:  # noqa: BLE001
+            arm(False)
             exc = e
         ops_for_model.append(mop)
         if exc is None:
@@ -806,7 +837,8 @@ def run_impl(case):
                 expected = byid[op[2]] not in before
             elif k == E_KEY and kind == "groupget":
                 kc = _mk_key(op[2], as_callable=True)
-                expected = op[3] not in [kc(a) for a in before]
+                ks = _attempt(lambda: [kc(a) for a in before])
+                expected = ks[0] == "ok" and op[3] not in ks[1]
             elif k == E_VALUE and kind == "get":
                 expected = op[4] not in (0, 1)
             elif k == E_VALUE and kind == "agg":
@@ -819,6 +851,11 @@ def run_impl(case):
                 expected = not (-len(before) <= op[2] < len(before))
             if expected:
                 obs.append([-1, k] + obs_state())
+            elif isinstance(exc, _OpTimeout):
+                hung = True
+                obs.append([-1, 98])
+                fail(i, f"C03/{kind}/does-not-terminate", f"{op} on {ids(before)}: {exc}")
+                continue
             else:
                 obs.append([-1, 99] + obs_state())
                 fail(i, f"C03/{kind}/unexpected-exception", f"{op} on {ids(before)} raised {type(exc).__name__}: {exc}")
